@@ -4,6 +4,8 @@ import HpxVerif.Lemmas.BmocXor3
 import HpxVerif.Lemmas.BmocOr2
 import HpxVerif.Lemmas.BmocCanon
 
+set_option autoImplicit false   -- an unknown identifier in a statement is an error, never a new variable
+
 /-!
 # C07 — BMOC logical operators implement set algebra on plain MOCs
 
